@@ -1,5 +1,6 @@
 import MesonModel.Fmt.Lemmas
 import MesonModel.Fmt.LayoutLemmas
+import MesonModel.Fmt.SortKey
 import MesonModel.Generated.FmtTables
 /-
 C16 — `meson format` preserves meaning and comments and is idempotent.
@@ -273,5 +274,29 @@ example : Layout.decided ⟨false, false, false, true⟩ .func false
     [.coll .files [.coll .array [.leaf 0, .leaf 1] false false false] true false false] false false = true := by
   simp [Layout.fmt, Layout.fmtArgs, Layout.fmtL, Layout.build, Layout.det, Layout.detL, Layout.continues, Layout.decided,
     Layout.trailingAfter, Layout.sortIf, Layout.hasCmtL, Layout.hasCmt, Layout.hasKw, Layout.isKw, Layout.isFn]
+
+/-! ### the key of `sort_files` never fails to compare (`MesonModel/Fmt/SortKey.lean`)
+
+`pathname_sort_key` yields tuples of `int | str`; Python raises TypeError on `int < str`.  With the key as coded
+(model shared with C17: `MesonModel.Rewrite.pathKey`) no two names ever get there, so `meson format` with
+`sort_files` cannot die in the sort whatever the file names. -/
+
+/-- **every pair of keys is comparable**: `pathname_sort_key(a) < pathname_sort_key(b)` never raises -/
+theorem sort_key_comparison_never_fails (a b : List Char) : (SortKey.pathLt? a b).isSome = true :=
+  SortKey.pathLt?_never_fails a b
+
+/-- … and its value is the order of the C17 model of the same function (one model of the key, two users) -/
+theorem sort_key_order_is_rewriter_order (a b : List Char) :
+    SortKey.pathLt? a b = some (MesonModel.Rewrite.pathKeyLt a b) :=
+  SortKey.pathLt?_eq a b
+
+/-- a name is never smaller than itself: with a stable sort the result is a function of the keys -/
+theorem sort_key_irreflexive (a : List Char) : SortKey.pathLt? a a = some false :=
+  SortKey.pathLt?_irrefl a
+
+/-- non-vacuity: the pairs on which a chunking without the empty texts fails — digit-leading against
+letter-leading component — compare: numbers come first (`'' < 'main'`) -/
+example : SortKey.pathLt? "7zip.c".toList "main.c".toList = some true := by decide
+example : SortKey.pathLt? "src/main.c".toList "3rdparty/zlib/inflate.c".toList = some false := by decide
 
 end MesonModel.Props.C16
